@@ -9,6 +9,7 @@ CONSTANTS
   BFaults <- BFaultsNone
   Ras <- RasSome
   Modes = {"call", "exec"}
+  RunGaps <- GapsNone
   NRuns = 1
   Configs <- ConfigsC15x
   RecordHist = TRUE
